@@ -3,6 +3,7 @@ import Dcg.Proofs.Rename
 import Dcg.Proofs.SpellOp
 import Dcg.Proofs.NoneOnce
 import Dcg.Proofs.FieldOpt
+import Dcg.Proofs.TreeBridge
 /-
 C13 — type annotations are well-formed and mean the same in every spelling.
 Only property theorems live here; helper lemmas are in Dcg/Proofs/Types.lean.
@@ -466,5 +467,111 @@ theorem spelling_invariant_full_false : ¬ SpellingInvariant := by
   have := h (.mk { isList := true } none [leaf "int" true, leaf "str"]) (by decide) typingO operatorO
   rw [spelling_changes_meaning.2.2.2.1, spelling_changes_meaning.2.2.2.2] at this
   exact absurd this (by decide)
+
+
+/-! ### Composition with stage 1 (C03/C04's model of the JSON-Schema parser): no residual tree hypothesis
+
+`tr st so ctx s` (Model.Translate, tied to the real parser by the `sem.tr` campaign) is what `parse_obj` / `parse_item`
+make of schema `s`; `toDT N pos` (Model.TreeBridge, tied to the real parser AND the real `type_hint` by the campaign
+`types.bridge`) is the `DataType` tree of that IR type, class names given by `N`. The theorems below are C13's theorems
+on `toDT N [] (tr …)` with every hypothesis on the TREE discharged by induction over the SCHEMA; what is left are
+hypotheses on the schema (`sup`, decidable), on the option (`field_constraints`: without it a bounded scalar is written
+in call syntax `conint(ge=1)`, outside Model.Types) and on the class names. -/
+section Composed
+open Dcg.Sem Dcg.Model.TreeBridge Dcg.Proofs.TreeBridge
+open Dcg.Model.Translate (tr Ctx)
+open Dcg.Model.Constraints (Style)
+
+/-- the tree of a schema (as a member: `ctx = plain`; as an item / alternative; for a document `top` gives the class reference) -/
+abbrev treeOf (N : Naming) (st : Style) (so : Dcg.Model.Translate.Opts) (ctx : Ctx) (s : Schema) : DT := toDT N [] (tr st so ctx s)
+
+/-- THE PARSER KEEPS `anyContPlain` — proved, for EVERY schema of the modelled subset, every style, option vector,
+position and naming (and in fact for the tree of every IR type): a `type == 'Any'` node that is a dict / list / set is
+never itself optional; `type: ["object","null"]` puts the flag on a one-member wrapper. -/
+theorem parser_keeps_anyContPlain (N : Naming) (st : Style) (so : Dcg.Model.Translate.Opts) (ctx : Ctx) (pos : List Nat) (s : Schema) :
+    anyContPlain (toDT N pos (tr st so ctx s)) = true := acp_toDT N pos _
+
+/-- the structural hypotheses of C13's theorems hold on the tree of every supported schema -/
+theorem schema_tree_hypotheses (N : Naming) (st : Style) (so : Dcg.Model.Translate.Opts) (hfc : so.fieldConstraints = true)
+    (ctx : Ctx) (s : Schema) :
+    (namesPlain N → sup true s = true → wfTree (treeOf N st so ctx s) = true) ∧
+    (namesFree N → sup true s = true → freeTree (treeOf N st so ctx s) = true) ∧
+    (sup false s = true → opRegionAll (treeOf N st so ctx s) = true) := by
+  refine ⟨fun hN hs => ?_, fun hN hs => ?_, fun hs => ?_⟩
+  · rw [wfTree_eq]; exact all_tr (nodeOK_wf N hN true) st so hfc ctx [] s hs
+  · rw [freeTree_eq]; exact all_tr (nodeOK_free N hN true) st so hfc ctx [] s hs
+  · have := all_tr (nodeOK_small N) st so hfc ctx [] s hs
+    simp only [opRegionAll, containerSpellings, List.all_cons, List.all_nil, Bool.and_true, Bool.and_eq_true]
+    exact ⟨opRegion_of_small _ _ this, opRegion_of_small _ _ this, opRegion_of_small _ _ this, opRegion_of_small _ _ this⟩
+
+/-- a naming with plain names, and supported schemas: `{"anyOf": [{"type": ["integer","null"]}, {"type": "array", "items":
+{"type": ["object","null"]}}, {"$ref": …}]}` (unions allowed) and the same array alone (union-free) -/
+example :
+    namesPlain ⟨fun _ => lit "K", fun _ => lit "R"⟩ ∧ namesFree ⟨fun _ => lit "K", fun _ => lit "R"⟩ ∧
+    sup true (.anyOf [.scalar .integer true {}, .array (.ndict .any) none none, .ref (lit "Pet")]) = true ∧
+    sup false (.array (.ndict .any) none none) = true :=
+  ⟨⟨fun _ => (by decide : plainName (lit "K") = true), fun _ => (by decide : plainName (lit "R") = true)⟩,
+   ⟨fun _ => (by decide : Dcg.Proofs.Types.allCont.contains (lit "K") = false),
+    fun _ => (by decide : Dcg.Proofs.Types.allCont.contains (lit "R") = false)⟩, by decide, by decide⟩
+
+/-- WELL-FORMED FOR EVERY SUPPORTED SCHEMA, ALL EIGHT SPELLINGS: the text `DataType.type_hint` builds for the type of the
+schema is the printed form of a well-formed hint expression (unique reading, `hint_unambiguous_all`) and its brackets
+are balanced. -/
+theorem schema_hint_wellformed (N : Naming) (hN : namesPlain N) (st : Style) (so : Dcg.Model.Translate.Opts)
+    (hfc : so.fieldConstraints = true) (ctx : Ctx) (s : Schema) (hs : sup true s = true) (o : Dcg.Model.Types.Opts) :
+    (typeHint o (treeOf N st so ctx s)).1 = print (hintE o (treeOf N st so ctx s)).1 ∧
+    wfB (hintE o (treeOf N st so ctx s)).1 = true ∧ balanced (typeHint o (treeOf N st so ctx s)).1 = true := by
+  have hw := (schema_tree_hypotheses N st so hfc ctx s).1 hN hs
+  refine ⟨?_, ?_, hint_balanced_partial o _ hw⟩
+  · cases hu : o.unionOp with
+    | false => exact (typeHint_eq_print_typing o hu _ hw).1
+    | true => exact (typeHint_eq_print_operator o hu _ hw).1
+  · cases hu : o.unionOp with
+    | false => exact wfB_of_wfU _ (typeHint_typing o hu _ hw).2
+    | true => exact (typeHint_eq_print_operator o hu _ hw).2.2
+
+/-- NONE ONCE / NO DOUBLE OPTIONAL, `|` spelling, every supported schema: no `Optional[…]` / `Union[…]` subscription
+at all, `None` at most once at every union level. -/
+theorem schema_none_once_operator (N : Naming) (hN : namesPlain N) (st : Style) (so : Dcg.Model.Translate.Opts)
+    (hfc : so.fieldConstraints = true) (ctx : Ctx) (s : Schema) (hs : sup true s = true) (o : Dcg.Model.Types.Opts) (ho : o.unionOp = true) :
+    opFree (hintE o (treeOf N st so ctx s)).1 = true ∧ rootOK (hintE o (treeOf N st so ctx s)).1 = true := by
+  have h := none_once_operator o ho _ ((schema_tree_hypotheses N st so hfc ctx s).1 hN hs)
+  exact ⟨h.2.1, h.2.2.2⟩
+
+/-- THE SAME MEANING IN ALL EIGHT SPELLINGS, every supported UNION-FREE schema (nullable scalars, arrays, maps,
+`type: ["object","null"]`, references and classes, nested in any way): any two spellings give printed forms of
+well-formed expressions with the same denotation. (With `anyOf` / `oneOf` the region `opRegion` — no alternative
+renders as `Any` — is not discharged here: `spelling_invariant_partial` applies with that one hypothesis on the tree.) -/
+theorem schema_spelling_invariant (N : Naming) (hN : namesPlain N) (hF : namesFree N) (st : Style) (so : Dcg.Model.Translate.Opts)
+    (hfc : so.fieldConstraints = true) (ctx : Ctx) (s : Schema) (hs : sup false s = true) (hs' : sup true s = true) (o o' : Dcg.Model.Types.Opts) :
+    (typeHint o (treeOf N st so ctx s)).1 = print (hintE o (treeOf N st so ctx s)).1 ∧
+    (typeHint o' (treeOf N st so ctx s)).1 = print (hintE o' (treeOf N st so ctx s)).1 ∧
+    denote (hintE o' (treeOf N st so ctx s)).1 = denote (hintE o (treeOf N st so ctx s)).1 := by
+  obtain ⟨h1, h2, h3⟩ := schema_tree_hypotheses N st so hfc ctx s
+  have := spelling_invariant_partial o o' _ (h1 hN hs') (h2 hF hs') (h3 hs)
+  exact ⟨this.1, this.2.1, this.2.2.2.2⟩
+
+/-- THE FIELD, typing spelling, with the parser-output invariant DISCHARGED: for the tree of every supported schema inside
+`optRegion` (still a hypothesis on the tree: known finding C13-F2 is reachable from `anyOf` with a nullable alternative)
+and every field setting, the field's annotation is the printed form of `fieldE` and has no `Optional[Optional[…]]`. -/
+theorem schema_field_no_double_optional (N : Naming) (hN : namesPlain N) (st : Style) (so : Dcg.Model.Translate.Opts)
+    (hfc : so.fieldConstraints = true) (ctx : Ctx) (s : Schema) (hs : sup true s = true) (o : Dcg.Model.Types.Opts) (ho : o.unionOp = false)
+    (fb : FieldBits) (hr : optRegion o (treeOf N st so ctx s) = true) :
+    fieldTypeHint o fb (treeOf N st so ctx s) = print (fieldE o fb (treeOf N st so ctx s)) ∧
+    noDbl (fieldE o fb (treeOf N st so ctx s)) = true := by
+  have h := field_no_double_optional_partial o ho fb _ ((schema_tree_hypotheses N st so hfc ctx s).1 hN hs)
+    (parser_keeps_anyContPlain N st so ctx [] s) hr
+  exact ⟨h.1, h.2.2⟩
+
+/-- `sup` is doing work — `wfTree` is NOT preserved by the parser on the whole subset: `{"type":"array","items":{}}` is
+an `is_list` node without members (an empty node; the hint is the bare `List`, a valid annotation — a restriction of
+the proofs, not a defect; replayed on the real parser by the campaign `types.bridge`, focused member `arrany`). -/
+theorem free_array_is_outside_wfTree (N : Naming) (st : Style) (so : Dcg.Model.Translate.Opts) :
+    sup true (.array .any none none) = false ∧
+    wfTree (treeOf N st so .plain (.array .any none none)) = false ∧
+    (typeHint typingO (treeOf N st so .plain (.array .any none none))).1 = lit "List" := by
+  refine ⟨by decide, ?_, ?_⟩ <;> simp only [treeOf, tr, Option.isSome_none, Bool.or_self, toDT, isAnyTy, if_true] <;> decide
+
+end Composed
 
 end Dcg.Props.C13
